@@ -63,6 +63,7 @@ class Contract:
     closures: List[ClosureSpec] = field(default_factory=list)
     bodytags: Dict[str, tuple] = field(default_factory=dict)
     holds: List[tuple] = field(default_factory=list)   # (var, decl_regex, until_regex, oid, tags, src)
+    callsites: List[tuple] = field(default_factory=list)  # (call_regex, oid, tags): this fn is the only caller
     ghost: str = ''                 # ghost members appended inside the item body (struct/impl/trait)
     stub: bool = False
     after: str = ''                 # ghost items emitted right after the item
@@ -191,6 +192,11 @@ def parse_file(path: str) -> List[Contract]:
             if not mm:
                 raise ContractError('%s: @holds <var> from /re/ until /re/ <id> [tags]' % where)
             cur.holds.append((mm.group(1), mm.group(2), mm.group(3), mm.group(4), mm.group(5).split(), where))
+        elif d == 'onlycaller':
+            mm = re.match(r'/(.*)/\s+(\S+)\s+\[([^\]]*)\]\s*$', arg)
+            if not mm:
+                raise ContractError('%s: @onlycaller /call-regex/ <id> [tags]' % where)
+            cur.callsites.append((mm.group(1), mm.group(2), mm.group(3).split()))
         elif d == 'bodytag':
             mm = re.match(r'(\w+)\s+(\S+)\s+\[([^\]]*)\]\s*$', arg)
             if not mm:
